@@ -358,3 +358,101 @@ func C04LargeArgsInFlight() {
 	}
 	sym.Reach("large-in-flight-done")
 }
+
+// C04Overlapping: calls that overlap partially on one connection: A and B are pending, one of them
+// (solver's choice) completes, and while the other is still pending two more calls C and D are issued;
+// the remaining replies come back in a solver-chosen order. Every call returns once, with the reply
+// carrying its own id (a reply slot that is re-used must not take a pending call's place).
+func C04Overlapping() {
+	s := newZZStream()
+	c := NewClient(NewChannel(net.NewEndPoint(s), DefaultCap()))
+	const n = 4
+	res := make([]chan zzCallRes, n)
+	issue := func(i int) {
+		res[i] = make(chan zzCallRes, 1)
+		go func() {
+			p, err := c.Call(nil, 1, 1, 100, []byte{byte(0xA0 + i)})
+			res[i] <- zzCallRes{p, err}
+		}()
+	}
+	answered := make([]bool, n)
+	answer := func(i int) {
+		for _, f := range s.sentMessages() {
+			if len(f.Payload) == 1 && f.Payload[0] == byte(0xA0+i) {
+				h := f.Header
+				h.Type = net.Reply
+				s.inject(net.NewMessage(h, []byte{byte(0xB0 + i)}))
+				answered[i] = true
+			}
+		}
+		sym.Quiesce()
+	}
+	issue(0)
+	sym.Quiesce()
+	issue(1)
+	sym.Quiesce()
+	first := sym.Choose("completes-first", 2)
+	answer(first)
+	r := <-res[first]
+	sym.Assert(r.err == nil && len(r.payload) == 1 && r.payload[0] == byte(0xB0+first), "overlapping/first-completed-call")
+	issue(2)
+	sym.Quiesce()
+	issue(3)
+	sym.Quiesce()
+	sym.Assert(len(s.sentMessages()) == n, "overlapping/call-frames-sent")
+	// the three pending calls are answered in a solver-chosen order
+	for k := 0; k < 3; k++ {
+		j := sym.Choose("answer-next", n)
+		if answered[j] {
+			for j = 0; j < n && answered[j]; j++ {
+			}
+		}
+		answer(j)
+	}
+	for i := 0; i < n; i++ {
+		if i == first {
+			continue
+		}
+		r := <-res[i] // a caller that never returns is a deadlock finding
+		sym.Assert(r.err == nil, "overlapping/pending-call-failed")
+		sym.Assert(len(r.payload) == 1 && r.payload[0] == byte(0xB0+i), "overlapping/answer-of-another-call")
+	}
+	sym.Reach("overlapping-done")
+}
+
+// C04CallerLeaves: the connection of a caller goes away while its method is executing (the peer hangs
+// up, or every further write on it fails): the answer cannot be delivered, but that is this caller's
+// problem alone: the next calls to the same object, from another connection, get their outcome.
+func C04CallerLeaves() {
+	v := newZZVictim(0)
+	v.obj.gate = make(chan struct{})
+	generic := sym.Bool("call-to-a-generic-action")
+	if generic {
+		v.obj.gate = nil
+	}
+	how := sym.Choose("how-the-caller-leaves", 2)
+	if generic {
+		// nothing to hold a generic action with: the connection is already broken when the call arrives
+		v.hostile.mu.Lock()
+		v.hostile.failFrom = v.hostile.writes + 1
+		v.hostile.mu.Unlock()
+		v.hostile.inject(zzFrame(net.Call, v.sid, 1, 2, 100, zzLE32(1)))
+		sym.Quiesce()
+	} else {
+		v.hostile.inject(zzFrame(net.Call, v.sid, 1, 1000, 100, []byte{1}))
+		sym.Quiesce()
+		if how == 0 {
+			v.hostile.peerClose()
+		} else {
+			v.hostile.mu.Lock()
+			v.hostile.failFrom = v.hostile.writes + 1
+			v.hostile.mu.Unlock()
+		}
+		sym.Quiesce()
+		close(v.obj.gate)
+		sym.Quiesce()
+	}
+	v.probe("after-the-caller-left")
+	v.probe("after-the-caller-left-again")
+	sym.Reach("caller-leaves-done")
+}
